@@ -688,6 +688,10 @@ fn run_case(case: &Val) -> Val {
             for ch in t.restale_llgr(src.remote_addr, Family::IPV4) {
                 process_nlri_change(&ch, emax, raddr, &mut map, &mut sink, &ctx, None, cid, None, None, None);
             }
+            // TableManager::mark_llgr_stale: NO_LLGR paths are dropped right after the marking
+            for ch in t.drop_no_llgr(src.remote_addr, Family::IPV4, None).0 {
+                process_nlri_change(&ch, emax, raddr, &mut map, &mut sink, &ctx, None, cid, None, None, None);
+            }
             let ops2 = std::mem::take(&mut sink.ops);
             Val::L(vec![norm(ops1), norm(ops2)])
         }
@@ -753,6 +757,260 @@ fn run_case(case: &Val) -> Val {
                     })
                     .collect(),
             )
+        }
+        // [16, ..as 11..]: the same scenario through the real TableManager: insert_route, the
+        // registered neighbour's event channel, mark_llgr_stale (restale_llgr + drop_no_llgr +
+        // distribute_update); every NlriChange the channel delivers goes through process_nlri_change
+        16 => {
+            let ctx = ctx_of(case.at(1));
+            let emax = case.at(2).usize();
+            let raddr = ip_of(case.at(3));
+            let cid = cid_of(case.at(4));
+            let src = src_of(case.at(5));
+            let nh = nh_opt_of(case.at(6));
+            let attrs = attrs_of(case.at(7));
+            let rt = tokio::runtime::Builder::new_current_thread().enable_all().build().unwrap();
+            rt.block_on(async move {
+                let tables: TableHandle = Arc::new(crate::table_manager::TableManager::new(1));
+                let mut rx = tables.register_peer(raddr, FnvHashSet::default(), |_| {});
+                let mut map = if emax == 1 { ExportMap::new([]) } else { ExportMap::new([Family::IPV4]) };
+                let norm = |ops: Vec<Val>| -> Val {
+                    Val::L(
+                        canon_ops(ops)
+                            .into_iter()
+                            .map(|o| {
+                                let mut l = o.list().to_vec();
+                                l[1] = Val::n(1u8);
+                                if emax != 1 {
+                                    l[2] = Val::n(1u8);
+                                }
+                                Val::L(l)
+                            })
+                            .collect(),
+                    )
+                };
+                let mut drain = |rx: &mut mpsc::UnboundedReceiver<ToPeerEvent>, map: &mut ExportMap| -> Vec<Val> {
+                    let mut sink = RecSink { ops: Vec::new() };
+                    while let Ok(ev) = rx.try_recv() {
+                        if let ToPeerEvent::NlriChange(ch) = ev {
+                            process_nlri_change(&ch, emax, raddr, map, &mut sink, &ctx, None, cid, None, None, None);
+                        }
+                    }
+                    sink.ops
+                };
+                let net: packet::Nlri = "10.9.0.0/24".parse().unwrap();
+                let exceeded = tables.insert_route(src.clone(), Family::IPV4, packet::PathNlri::new(net), nh, attrs, None, 0);
+                assert!(!exceeded);
+                let ops1 = drain(&mut rx, &mut map);
+                tables.mark_llgr_stale(src.remote_addr, &[Family::IPV4]);
+                let ops2 = drain(&mut rx, &mut map);
+                Val::L(vec![norm(ops1), norm(ops2)])
+            })
+        }
+        // [17, has_family, ctx, emax, raddr, cid, family, [change..], policy(opt), [[dest, key]..]]:
+        // the real PeerSession::handle_prefix_update for every change (its own send-max lookup,
+        // address, cluster id, export context, the session's export policy) into the real
+        // PendingTx; observation: what drain_messages hands over for each probed (dest, key),
+        // and ExportMap::sent_path_ids.  The NLRI is 10.9.<dest>.0/24.
+        17 => {
+            let has_family = case.at(1).bool();
+            let ctx = ctx_of(case.at(2));
+            let emax = case.at(3).usize();
+            let raddr = ip_of(case.at(4));
+            let cid = cid_of(case.at(5));
+            let family = family_of(case.at(6));
+            let rt = tokio::runtime::Builder::new_current_thread().enable_all().build().unwrap();
+            rt.block_on(async move {
+                let tables: TableHandle = Arc::new(crate::table_manager::TableManager::new(1));
+                let fsm = crate::fsm::PeerFsm::new(1, ctx.local_asn, vec![], 90, 0, FnvHashMap::default());
+                let conn_arbiter = Arc::new(std::sync::Mutex::new(ConnArbiter::new(fsm)));
+                let context = Arc::new(std::sync::Mutex::new(PeerContext {
+                    conn_arbiter,
+                    active_connect_cancel_tx: None,
+                    active_connect_join_handle: None,
+                    gr_state: crate::gr::GrState::new(),
+                    gr_restart_timer: None,
+                    llgr_family_timers: FnvHashMap::default(),
+                    rtc_state: crate::rtc::RtcState::new(),
+                    rtc_eor_timer: None,
+                }));
+                let mut s = PeerSession::new_for_test(raddr, context, tables);
+                let addpath_tx = emax != 1;
+                s.export_ctx = ctx;
+                s.cluster_id = cid;
+                if has_family {
+                    s.codec.set_family(family, bgp::FamilyState { addpath_rx: false, addpath_tx });
+                }
+                s.pending.insert(family, crate::peer_tx::PendingTx::new(addpath_tx));
+                s.effective_max.insert(family, emax);
+                s.export_map = if addpath_tx { ExportMap::new([family]) } else { ExportMap::new([]) };
+                if let Some(pv) = case.at(8).list().first() {
+                    s.state.export_policy.store(Some(Arc::new(policy_of(pv))));
+                }
+                for ch in case.at(7).list() {
+                    let mut update = change_of(ch);
+                    update.net = format!("10.9.{}.0/24", update.dest_id & 0xff).parse().unwrap();
+                    s.handle_prefix_update(Arc::new(update));
+                }
+                let msgs = s.pending.get_mut(&family).unwrap().drain_messages(family);
+                let dest_of = |n: &packet::Nlri| -> i128 {
+                    let txt = format!("{}", n);
+                    txt.split('.').nth(2).unwrap().parse::<i128>().unwrap()
+                };
+                let mut found: Vec<(i128, i128, Val)> = Vec::new();
+                for m in &msgs {
+                    match m {
+                        bgp::Message::Update(bgp::Update::Unreach { entries, .. }) => {
+                            for e in entries {
+                                found.push((dest_of(&e.nlri), e.path_id as i128, Val::L(vec![Val::n(0u8)])));
+                            }
+                        }
+                        bgp::Message::Update(bgp::Update::Reach { entries, nexthop, attr, .. }) => {
+                            for e in entries {
+                                found.push((
+                                    dest_of(&e.nlri),
+                                    e.path_id as i128,
+                                    Val::L(vec![Val::n(1u8), nh_opt_val(nexthop), attrs_val(attr)]),
+                                ));
+                            }
+                        }
+                        _ => {}
+                    }
+                }
+                let probes = case.at(9).list();
+                let pend: Vec<Val> = probes
+                    .iter()
+                    .map(|dk| {
+                        let hits: Vec<&(i128, i128, Val)> =
+                            found.iter().filter(|f| f.0 == dk.at(0).int() && f.1 == dk.at(1).int()).collect();
+                        assert!(hits.len() <= 1, "verif: a key is pending twice");
+                        hits.first().map(|f| f.2.clone()).unwrap_or(Val::L(vec![]))
+                    })
+                    .collect();
+                assert!(
+                    found.iter().all(|f| probes.iter().any(|dk| f.0 == dk.at(0).int() && f.1 == dk.at(1).int())),
+                    "verif: a pending entry outside the probed keys"
+                );
+                let sent: Vec<Val> = probes
+                    .iter()
+                    .map(|dk| {
+                        let mut ids: Vec<u32> = s.export_map.sent_path_ids(family, dk.at(0).u32()).into_iter().collect();
+                        ids.sort();
+                        Val::L(ids.into_iter().map(Val::n).collect())
+                    })
+                    .collect();
+                Val::L(vec![Val::L(pend), Val::L(sent)])
+            })
+        }
+        // [18, 1, ctx, emax, raddr, cid, family, [change..] before, policy1(opt), [[dest, key]..], [change..] walk, policy2(opt)]:
+        // as 17 for the changes before; what is pending is drained and dropped; then the session's
+        // export policy is replaced and the real PeerSession::apply_refresh_walk runs over the walk.
+        // the real PeerSession::handle_prefix_update for every change (its own send-max lookup,
+        // address, cluster id, export context, the session's export policy) into the real
+        // PendingTx; observation: what drain_messages hands over for each probed (dest, key),
+        // and ExportMap::sent_path_ids.  The NLRI is 10.9.<dest>.0/24.
+        18 => {
+            let has_family = case.at(1).bool();
+            let ctx = ctx_of(case.at(2));
+            let emax = case.at(3).usize();
+            let raddr = ip_of(case.at(4));
+            let cid = cid_of(case.at(5));
+            let family = family_of(case.at(6));
+            let rt = tokio::runtime::Builder::new_current_thread().enable_all().build().unwrap();
+            rt.block_on(async move {
+                let tables: TableHandle = Arc::new(crate::table_manager::TableManager::new(1));
+                let fsm = crate::fsm::PeerFsm::new(1, ctx.local_asn, vec![], 90, 0, FnvHashMap::default());
+                let conn_arbiter = Arc::new(std::sync::Mutex::new(ConnArbiter::new(fsm)));
+                let context = Arc::new(std::sync::Mutex::new(PeerContext {
+                    conn_arbiter,
+                    active_connect_cancel_tx: None,
+                    active_connect_join_handle: None,
+                    gr_state: crate::gr::GrState::new(),
+                    gr_restart_timer: None,
+                    llgr_family_timers: FnvHashMap::default(),
+                    rtc_state: crate::rtc::RtcState::new(),
+                    rtc_eor_timer: None,
+                }));
+                let mut s = PeerSession::new_for_test(raddr, context, tables);
+                let addpath_tx = emax != 1;
+                s.export_ctx = ctx;
+                s.cluster_id = cid;
+                if has_family {
+                    s.codec.set_family(family, bgp::FamilyState { addpath_rx: false, addpath_tx });
+                }
+                s.pending.insert(family, crate::peer_tx::PendingTx::new(addpath_tx));
+                s.effective_max.insert(family, emax);
+                s.export_map = if addpath_tx { ExportMap::new([family]) } else { ExportMap::new([]) };
+                if let Some(pv) = case.at(8).list().first() {
+                    s.state.export_policy.store(Some(Arc::new(policy_of(pv))));
+                }
+                for ch in case.at(7).list() {
+                    let mut update = change_of(ch);
+                    update.net = format!("10.9.{}.0/24", update.dest_id & 0xff).parse().unwrap();
+                    s.handle_prefix_update(Arc::new(update));
+                }
+                let _ = s.pending.get_mut(&family).unwrap().drain_messages(family);
+                s.state.export_policy.store(case.at(11).list().first().map(|pv| Arc::new(policy_of(pv))));
+                let walk: Vec<table::NlriChange> = case
+                    .at(10)
+                    .list()
+                    .iter()
+                    .map(|ch| {
+                        let mut u = change_of(ch);
+                        u.net = format!("10.9.{}.0/24", u.dest_id & 0xff).parse().unwrap();
+                        u
+                    })
+                    .collect();
+                s.apply_refresh_walk(family, &walk);
+                let msgs = s.pending.get_mut(&family).unwrap().drain_messages(family);
+                let dest_of = |n: &packet::Nlri| -> i128 {
+                    let txt = format!("{}", n);
+                    txt.split('.').nth(2).unwrap().parse::<i128>().unwrap()
+                };
+                let mut found: Vec<(i128, i128, Val)> = Vec::new();
+                for m in &msgs {
+                    match m {
+                        bgp::Message::Update(bgp::Update::Unreach { entries, .. }) => {
+                            for e in entries {
+                                found.push((dest_of(&e.nlri), e.path_id as i128, Val::L(vec![Val::n(0u8)])));
+                            }
+                        }
+                        bgp::Message::Update(bgp::Update::Reach { entries, nexthop, attr, .. }) => {
+                            for e in entries {
+                                found.push((
+                                    dest_of(&e.nlri),
+                                    e.path_id as i128,
+                                    Val::L(vec![Val::n(1u8), nh_opt_val(nexthop), attrs_val(attr)]),
+                                ));
+                            }
+                        }
+                        _ => {}
+                    }
+                }
+                let probes = case.at(9).list();
+                let pend: Vec<Val> = probes
+                    .iter()
+                    .map(|dk| {
+                        let hits: Vec<&(i128, i128, Val)> =
+                            found.iter().filter(|f| f.0 == dk.at(0).int() && f.1 == dk.at(1).int()).collect();
+                        assert!(hits.len() <= 1, "verif: a key is pending twice");
+                        hits.first().map(|f| f.2.clone()).unwrap_or(Val::L(vec![]))
+                    })
+                    .collect();
+                assert!(
+                    found.iter().all(|f| probes.iter().any(|dk| f.0 == dk.at(0).int() && f.1 == dk.at(1).int())),
+                    "verif: a pending entry outside the probed keys"
+                );
+                let sent: Vec<Val> = probes
+                    .iter()
+                    .map(|dk| {
+                        let mut ids: Vec<u32> = s.export_map.sent_path_ids(family, dk.at(0).u32()).into_iter().collect();
+                        ids.sort();
+                        Val::L(ids.into_iter().map(Val::n).collect())
+                    })
+                    .collect();
+                Val::L(vec![Val::L(pend), Val::L(sent)])
+            })
         }
         t => panic!("verif: unknown case tag {}", t),
     }
